@@ -201,7 +201,20 @@ replaced.`)
 		}
 		if len(args) > 1 {
 			if s, ok := args[1].(Int); ok {
-				selfStr = selfStr[s:]
+				// start is interpreted as in slice notation
+				str := self.(String)
+				size := str.len()
+				beg := int(s)
+				if beg < 0 {
+					beg += size
+					if beg < 0 {
+						beg = 0
+					}
+				}
+				if beg > size {
+					return Bool(false), nil
+				}
+				selfStr = string(str.slice(beg, size, size))
 			}
 		}
 
@@ -636,14 +649,23 @@ func (s String) Count(args Tuple) (Object, error) {
 		end  = int(pyend.(Int))
 		size = s.len()
 	)
-	if beg > size {
-		beg = size
-	}
-	if end < 0 {
-		end = size
-	}
+	// start and end are interpreted as in slice notation
 	if end > size {
 		end = size
+	} else if end < 0 {
+		end += size
+		if end < 0 {
+			end = 0
+		}
+	}
+	if beg < 0 {
+		beg += size
+		if beg < 0 {
+			beg = 0
+		}
+	}
+	if beg > size {
+		return Int(0), nil
 	}
 
 	var (
